@@ -186,7 +186,16 @@ pub fn run(args: &Args) {
             check_one(&mut rep, &s, "hostile-quoted-token", &strict, false);
             note_distinct(&mut rep, &s);
             rep.sample_family("hostile-quoted-token", 2, json!(s));
+        } else if fam < 89 {
+            let s = refimpl::sentence::long_token_case(&mut rng);
+            check_one(&mut rep, &s, "long-token", &strict, false);
+            note_distinct(&mut rep, &s);
         } else if fam < 92 {
+            let s = refimpl::sentence::lookalike_case(&mut rng);
+            check_one(&mut rep, &s, "unicode-lookalike", &strict, false);
+            note_distinct(&mut rep, &s);
+            rep.sample_family("unicode-lookalike", 2, json!(s));
+        } else if fam < 96 {
             let s = char_soup(&mut rng, 40);
             check_one(&mut rep, &s, "char-soup", &strict, false);
             rep.sample_family("char-soup", 2, json!(s));
